@@ -56,7 +56,7 @@ def entity(G, name):
 @contract
 class GroupByType:
     fn = "output.core.Output.group_by_type_result"
-    props = ["C13"]
+    props = ["C13", "C03", "C04"]
     cases = {"all": {}}
     loops = {"output.core.Output.group_by_type_result#0": dict(inv="inv_items", temps=["key", "_type"])}
 
